@@ -150,6 +150,13 @@ fn drain_schedules(ctx: &Ctx, m128: bool, rate: usize, ay: bool) {
     let spf = rate / 50;
     for pattern in 0..64u32 {
         let mut e = machine(m128, rate, 100, true, ay);
+        if ay {
+            // the AY is not only enabled but sounding: three tones and noise at full volume
+            for (r, d) in [(0u8, 0x9Cu8), (1, 0x00), (2, 0x40), (3, 0x01), (4, 0x11), (5, 0x00), (6, 0x03), (7, 0x20), (8, 0x0F), (9, 0x0F), (10, 0x0F)] {
+                rig::cpu_out(&mut e, OUTC, 0xFFFD, r);
+                rig::cpu_out(&mut e, OUTC, 0xBFFD, d);
+            }
+        }
         let mut total = 0usize;
         let mut since_drain = 0u64;
         let case = json!({"kind":"drain","m128":m128,"rate":rate,"ay":ay,"pattern":pattern});
@@ -171,7 +178,7 @@ fn drain_schedules(ctx: &Ctx, m128: bool, rate: usize, ay: bool) {
                     return;
                 }
                 for s in got.iter() {
-                    if !s.0.is_finite() || !s.1.is_finite() || s.0.abs() > 4.35 || s.1.abs() > 4.35 {
+                    if !s.0.is_finite() || !s.1.is_finite() || s.0.abs() > 2.175 + 1e-6 || s.1.abs() > 2.175 + 1e-6 {
                         ctx.violation("C19:sample-out-of-bounds:drain", &format!("rate {} ay {}: sample {:?}", rate, ay, s), case.clone());
                         return;
                     }
@@ -180,6 +187,12 @@ fn drain_schedules(ctx: &Ctx, m128: bool, rate: usize, ay: bool) {
             }
         }
         let rest = rig::drain_audio(&mut e);
+        for s in rest.iter() {
+            if !s.0.is_finite() || !s.1.is_finite() || s.0.abs() > 2.175 + 1e-6 || s.1.abs() > 2.175 + 1e-6 {
+                ctx.violation("C19:sample-out-of-bounds:drain", &format!("rate {} ay {}: sample {:?} exceeds (0.6 + 3.75) x volume/200", rate, ay, s), case.clone());
+                return;
+            }
+        }
         if rest.len() >= 2 * spf {
             ctx.violation(
                 &format!("C19:queue-too-long:{}", if m128 { "128k" } else { "48k" }),
@@ -270,7 +283,7 @@ pub fn run(tier: Tier, seed: u64, replay: Option<String>) -> i32 {
     ctx.note("drain_patterns", json!(djobs.len() * 64));
     ctx.note("not_judged", json!("which frame the few samples belong to that are produced while the last instruction of a frame runs into the next one (they are counted by emulated time)"));
     ctx.finish(
-        "sample rates {8000,8001,11025,22050,44100,44099,48000,96000,192000,384000} x {48K,128K}: one OUT (FE) toggling bit 4 with its start at every T of the frame (quick: first, middle and last 256 T), sparser sets for bit 3, volumes {0,1,200} and two toggles closer than one sample; per drained frame floor(rate/50) samples (by emulated time), every sample before/after the edge window equals the level set, the edge within one sample of the OUT, all samples finite and bounded; all 64 drain/no-drain patterns over 6 frames x rates x machines x AY on/off: queue always below two frames' worth. distinct_nontrivial = cases",
+        "sample rates {8000,8001,11025,22050,44100,44099,48000,96000,192000,384000} x {48K,128K}: one OUT (FE) toggling bit 4 with its start at every T of the frame (quick: first, middle and last 256 T), sparser sets for bit 3, volumes {0,1,200} and two toggles closer than one sample; per drained frame floor(rate/50) samples (by emulated time), every sample before/after the edge window equals the level set, the edge within one sample of the OUT, all samples finite and bounded; all 64 drain/no-drain patterns over 6 frames x rates x machines x AY off / on and sounding (three tones + noise at full volume): queue always below two frames' worth, every sample finite and within (0.6 + 3.75) x volume/200. distinct_nontrivial = cases",
         false,
         &["frame clock placed through the hook before each OUT; remaining frame is idle loop", "beeper-only machines for the edge test so the AY path does not blur levels"],
     )
